@@ -9,23 +9,24 @@
                       gauges), queues it for the clients
      Deliver          a client reads one answer from InfoSource
      Peek(s)          cache read with last-access update
-     Tick             time moves to the next refresh boundary: doRefresh (evict idle entries, queue expired ones for lookup)
+     Tick             time moves to the next refresh boundary: doRefresh's scan (idle entries listed and booked out of the gauges, expired
+                      ones queued for lookup); TickDelete removes the listed entries; RacePeek(s) is a client's read in between
      Requeue          Run hands one queued refresh lookup to the dispatcher
      Wait(d)          time passes inside a refresh period
    Composed with the CacheProp monitor. Gauges are integers (underflow visible). ForgetOnError = TRUE is a deliberately broken
    variant (a failed refresh overwrites the instance) used to show the check is not vacuous. *)
 EXTENDS Integers, FiniteSets, Sequences, TLC
 
-CONSTANTS Srcs, Limit, Refresh, TTL, NegTTL, Idle, MaxTime, MaxSubmits, ForgetOnError
+CONSTANTS Srcs, Limit, Refresh, TTL, NegTTL, Idle, MaxTime, MaxSubmits, ForgetOnError, RecheckUnderLock
 
-VARIABLES now, cache, batch, infos, toReturn, toLookup, gPos, gNeg, submits,
+VARIABLES now, cache, batch, infos, toReturn, toLookup, gPos, gNeg, submits, pend,
           par, entry, owed, unqueried, requery, bad
 Prop == INSTANCE CacheProp
-ivars == <<now, cache, batch, infos, toReturn, toLookup, gPos, gNeg, submits>>
+ivars == <<now, cache, batch, infos, toReturn, toLookup, gPos, gNeg, submits, pend>>
 vars == <<ivars, par, entry, owed, unqueried, requery, bad>>
 MonUnch == UNCHANGED <<par, entry, owed, unqueried, requery, bad>>
 
-Init == /\ now = 0 /\ cache = <<>> /\ batch = <<>> /\ infos = <<>> /\ toReturn = <<>> /\ toLookup = <<>> /\ gPos = 0 /\ gNeg = 0 /\ submits = 0
+Init == /\ now = 0 /\ cache = <<>> /\ batch = <<>> /\ infos = <<>> /\ toReturn = <<>> /\ toLookup = <<>> /\ gPos = 0 /\ gNeg = 0 /\ submits = 0 /\ pend = {}
         /\ par = [refresh |-> Refresh, ttl |-> TTL, negttl |-> NegTTL, idle |-> Idle]
         /\ entry = <<>> /\ owed = <<>> /\ unqueried = <<>> /\ requery = {} /\ bad = ""
 
@@ -37,13 +38,13 @@ Submit(s) ==
   /\ submits < MaxSubmits /\ submits' = submits + 1
   /\ Len(batch) < Limit                    \* a full batch is looked up (Window) before the dispatcher reads IpSink again
   /\ batch' = Append(batch, s) /\ Prop!PSubmit(s)
-  /\ UNCHANGED <<now, cache, infos, toReturn, toLookup, gPos, gNeg>>
+  /\ UNCHANGED <<now, cache, infos, toReturn, toLookup, gPos, gNeg, pend>>
 Window == /\ batch # <<>>
           /\ \E found \in SUBSET Srcs : DoLookup(batch, found)
           /\ batch' = <<>>
-          /\ UNCHANGED <<now, cache, toReturn, toLookup, gPos, gNeg, submits, par, entry, bad>>
+          /\ UNCHANGED <<now, cache, toReturn, toLookup, gPos, gNeg, submits, par, entry, bad, pend>>
 HandleInfo ==
-  /\ infos # <<>>
+  /\ infos # <<>> /\ pend = {}
   /\ LET i == Head(infos) s == i.src
          cur == IF s \in DOMAIN cache THEN cache[s] ELSE [kind |-> "none", lastUse |-> 0, exp |-> 0]
          kind == IF cur.kind = "none" THEN i.res
@@ -56,36 +57,48 @@ HandleInfo ==
         /\ gNeg' = gNeg + (IF cur.kind = "none" /\ i.res = "neg" THEN 1 ELSE IF cur.kind = "neg" /\ i.res = "pos" THEN -1 ELSE 0)
         /\ toReturn' = Append(toReturn, i)
   /\ infos' = Tail(infos)
-  /\ UNCHANGED <<now, batch, toLookup, submits>> /\ MonUnch
+  /\ UNCHANGED <<now, batch, toLookup, submits, pend>> /\ MonUnch
 Deliver == /\ toReturn # <<>>
            /\ Prop!PAnswer(toReturn[Len(toReturn)].src, toReturn[Len(toReturn)].res, now)      \* the LAST queued info goes first
            /\ toReturn' = SubSeq(toReturn, 1, Len(toReturn) - 1)
-           /\ UNCHANGED <<now, cache, batch, infos, toLookup, gPos, gNeg, submits, par, unqueried, requery>>
-Peek(s) == /\ infos = <<>> /\ toReturn = <<>>          \* the monitor's cache follows delivered answers: compare at rest
+           /\ UNCHANGED <<now, cache, batch, infos, toLookup, gPos, gNeg, submits, par, unqueried, requery, pend>>
+Peek(s) == /\ infos = <<>> /\ toReturn = <<>> /\ pend = {}          \* the monitor's cache follows delivered answers: compare at rest
            /\ Prop!PPeek(s, IF s \in DOMAIN cache THEN cache[s].kind ELSE "miss", now)
            /\ cache' = IF s \in DOMAIN cache THEN [cache EXCEPT ![s].lastUse = now] ELSE cache
-           /\ UNCHANGED <<now, batch, infos, toReturn, toLookup, gPos, gNeg, submits, par, owed, unqueried, requery>>
-Tick == /\ infos = <<>> /\ toReturn = <<>> /\ batch = <<>> /\ toLookup = <<>>
+           /\ UNCHANGED <<now, batch, infos, toReturn, toLookup, gPos, gNeg, submits, par, owed, unqueried, requery, pend>>
+Tick == /\ infos = <<>> /\ toReturn = <<>> /\ batch = <<>> /\ toLookup = <<>> /\ pend = {}
         /\ (now \div Refresh + 1) * Refresh <= MaxTime
         /\ LET t == (now \div Refresh + 1) * Refresh
                dead == {s \in DOMAIN cache : t - cache[s].lastUse > Idle}
                live == DOMAIN cache \ dead
                expired == {s \in live : t > cache[s].exp}
-           IN /\ now' = t /\ cache' = [s \in live |-> cache[s]]
+           IN /\ now' = t /\ cache' = cache /\ pend' = dead          \* the scan (read lock): idle entries are listed and booked out of the gauges
               /\ gPos' = gPos - Cardinality({s \in dead : cache[s].kind = "pos"})
               /\ gNeg' = gNeg - Cardinality({s \in dead : cache[s].kind = "neg"})
               /\ toLookup' = IF expired = {} THEN <<>> ELSE LET f == CHOOSE f \in [1..Cardinality(expired) -> expired] : \A a, b \in 1..Cardinality(expired) : a # b => f[a] # f[b] IN f
               /\ Prop!PTick(t)
         /\ UNCHANGED <<batch, infos, toReturn, submits>>
-Requeue == /\ toLookup # <<>> /\ Len(batch) < Limit
+\* doRefresh's second half (write lock): the listed entries are deleted.  RecheckUnderLock = TRUE is a deliberately broken variant that keeps
+\* an entry a client has read in between, although the scan has already booked it out of the gauges.
+TickDelete == /\ pend # {}
+              /\ LET gone == {s \in pend : ~RecheckUnderLock \/ now - cache[s].lastUse > Idle}
+                 IN cache' = [s \in DOMAIN cache \ gone |-> cache[s]]
+              /\ pend' = {}
+              /\ UNCHANGED <<now, batch, infos, toReturn, toLookup, gPos, gNeg, submits>> /\ MonUnch
+\* a client reads an entry between the scan and the deletion: Peek stamps the access time after it has let go of the read lock (what it
+\* returns is not judged: hit or miss are both possible at that instant)
+RacePeek(s) == /\ s \in pend /\ cache' = [cache EXCEPT ![s].lastUse = now]
+               /\ UNCHANGED <<now, batch, infos, toReturn, toLookup, gPos, gNeg, submits, pend>> /\ MonUnch
+Requeue == /\ toLookup # <<>> /\ Len(batch) < Limit /\ pend = {}
            /\ batch' = Append(batch, toLookup[Len(toLookup)]) /\ toLookup' = SubSeq(toLookup, 1, Len(toLookup) - 1)
-           /\ UNCHANGED <<now, cache, infos, toReturn, gPos, gNeg, submits>> /\ MonUnch
+           /\ UNCHANGED <<now, cache, infos, toReturn, gPos, gNeg, submits, pend>> /\ MonUnch
 \* time passes only when nothing is half way (clients read InfoSource promptly: the monitor dates an entry by its answer)
-Wait(d) == /\ infos = <<>> /\ toReturn = <<>> /\ now + d <= MaxTime /\ (now + d) \div Refresh = now \div Refresh /\ now' = now + d
-           /\ UNCHANGED <<cache, batch, infos, toReturn, toLookup, gPos, gNeg, submits>> /\ MonUnch
-Emit == /\ infos = <<>> /\ toReturn = <<>> /\ Prop!PGauge(gPos, gNeg) /\ UNCHANGED ivars
+Wait(d) == /\ infos = <<>> /\ toReturn = <<>> /\ pend = {} /\ now + d <= MaxTime /\ (now + d) \div Refresh = now \div Refresh /\ now' = now + d
+           /\ UNCHANGED <<cache, batch, infos, toReturn, toLookup, gPos, gNeg, submits, pend>> /\ MonUnch
+Emit == /\ infos = <<>> /\ toReturn = <<>> /\ pend = {} /\ Prop!PGauge(gPos, gNeg) /\ UNCHANGED ivars
 
-Next == \/ \E s \in Srcs : Submit(s) \/ Peek(s)
+Next == \/ \E s \in Srcs : Submit(s) \/ Peek(s) \/ RacePeek(s)
+        \/ TickDelete
         \/ Window \/ HandleInfo \/ Deliver \/ Tick \/ Requeue \/ Emit \/ \E d \in {1, 2} : Wait(d)
 Spec == Init /\ [][Next]_vars
 MonitorQuiet == bad = ""
